@@ -33,7 +33,7 @@ class Contract:
     """
 
     def __init__(self, target, params, result=None, requires=None, ensures=None, raises=(), modifies=(), loops=None,
-                 spec_fns=None, inline=False, inline_callees=(), props=(), note="", trusted=False, witness=None, exposes=None, defines=None, ghost=None, locals=None):
+                 spec_fns=None, inline=False, inline_callees=(), props=(), note="", trusted=False, witness=None, exposes=None, defines=None, ghost=None, locals=None, let_abstraction=True, adapt=None, instance=None):
         self.target = target
         self.module, self.qual = target.split(":")
         self.params = dict(params)
@@ -54,6 +54,9 @@ class Contract:
         #                                                   uninterpreted symbol: assumed at call sites, not part of the body's obligations
         self.ghost = dict(ghost or {})      # {"after:<statement source, whitespace-normalised>": hook(engine, env)}: ghost updates (may only write ghost fields)
         self.locals = dict(locals or {})    # declared types of locals that start as empty literals
+        self.let_abstraction = let_abstraction     # False: keep large array entries expanded (specs that mirror the code term by term)
+        self.instance = instance   # distinguishes several contracts of one function (separate ledger entries)
+        self.adapt = adapt     # replay only: concretised arguments (plain data) -> arguments of the real call (e.g. a record to the real class)
         self.exposes = dict(exposes or {})   # callee locals named in `ensures`: existentially quantified (fresh) at call sites
 
 
